@@ -342,6 +342,8 @@ class P(Prop):
         S = rng.choice([max(1, len(tbl) - 2), len(tbl) - 1 if len(tbl) > 1 else 1, len(tbl), len(tbl) + 1])
         s = S + rng.choice([0, 0, 0.5, 0.25])
         k = {"t": "user", "tbl": tbl, "s": s, "fb": self.rand_fb(rng)}
+        if rng.random() < 0.5:
+            k["setf"] = False      # the constructor alone, no setFunction afterwards (fix 91685d1)
         if sum(shape_weights(k)) <= 0:
             k["tbl"][0] = ["f", 0.5]
         return k
@@ -767,7 +769,7 @@ class P(Prop):
         elif t in ("user", "userfn"):
             f = self.user_function(k)
             o = K.Kernel(f, k["s"])
-            if k.get("setf", True):      # "setf": false = the constructor alone (known finding 'kernel-ctor-ignores-function')
+            if k.get("setf", True):      # "setf": false = the constructor alone (the defect repaired by 91685d1: the constructor dropped its function)
                 o.setFunction(f)
         else:
             o = {"uniform": K.UniformKernel, "triangular": K.TriangularKernel, "epanechnikov": K.EpanechnikovKernel,
@@ -1225,13 +1227,6 @@ class P(Prop):
         return msg
 
     def classify(self, case, impl_out, msg):
-        """known-finding classes. 'kernel-ctor-ignores-function': Kernel.__init__(function, support) drops its `function`
-        argument (self.function = Kernel.__kernel_function, i.e. None), so a user-defined kernel built with the constructor
-        alone raises TypeError ('NoneType' object is not callable) as soon as it is sampled. Not generated by cases();
-        the witness is replayed when known_findings.json lists the class."""
-        k = case.get("k") or {}
-        if k.get("t") in ("user", "userfn") and k.get("setf") is False and isinstance(impl_out, dict) and impl_out.get("err") == "err:type":
-            return "kernel-ctor-ignores-function"
         return None
 
     # ---------------------------------------------------------------- shrinking / search
